@@ -137,6 +137,28 @@ def gen_cases(tier, seed):
                       'nocc': nocc * (2 if square else 1),
                       'explicit': r.random() < 0.2,
                       'mseed': r.randrange(1 << 30)})
+    # one call with the tensor in one block at exponents of different parity
+    # (X T + Z T^2 [+ W T^3]): the symmetry of T^n depends on the parity of n
+    for q in range(10 if tier == 'quick' else 60):
+        rank = r.choice([1, 2, 2])
+        up = ['a', 'b'][:rank]
+        lo = ['i', 'j'][:rank]
+        bk = r.choice([0, 0, 1]) if rank == 2 else r.choice([0, 1, -1])
+        terms = []
+        for n_exp, nm in ((1, 'x'), (2, 'y'), (3, 'w')):
+            if n_exp == 3 and r.random() < 0.6:
+                continue
+            o = {'t': 'anti', 'name': 'd', 'up': list(up), 'lo': list(lo),
+                 'bk': 0}
+            if n_exp > 1:
+                o['exp'] = n_exp
+            terms.append({'pref': r.choice(['1', '-1', '1/2', '2']),
+                          'objs': [{'t': 'non', 'name': nm, 'up': up + lo}, o]})
+        cases.append({'id': f'C14-{tier[0]}{seed}-mixexp-{q}-deriv', 'op': 'deriv',
+                      'terms': terms, 'targets': [], 'tname': 'd',
+                      'tkind': 'anti', 'nu': rank, 'nl': rank, 'bk': bk,
+                      'spin': False, 'nocc': 2, 'explicit': False,
+                      'mseed': r.randrange(1 << 30)})
     # fixed rank-(3,3) tensors with indices from three spaces (quick tier has no
     # random (3,3) tensors): products of permutations of two spaces that leave the
     # third untouched must be part of the symmetrisation (repaired defect F26)
